@@ -1,50 +1,11 @@
-(* Executable model of preprocess/foldfilter_main.cc: the scanner
-   util::DecodeUTF8 (as used by wrap_lines), wrap_lines itself with the code's
+(* Executable model of preprocess/foldfilter_main.cc (the scanner util::DecodeUTF8 it uses
+   is in Fold/Utf8Scan.v): wrap_lines itself with the code's
    own variables, the DelimiterList hand-off (NUL-terminated strings), the
    collector's join and the whole tool for a line-preserving child.
    Positions are byte offsets (Z); size_t differences are wrapped with u64,
    the int32_t pos_first_delimiter with wrap32.  Model only -- no proofs. *)
-From PP Require Export Base.Bytes Base.Lines Gen.Src_foldfilter.
+From PP Require Export Base.Bytes Base.Lines Gen.Src_foldfilter Fold.Utf8Scan Unicode.Utf8Enc.
 Local Open Scope Z_scope.
-
-(* ---------- util::DecodeUTF8 (util/utf8.hh) ---------- *)
-
-(* IsTrailByte(char x): static_cast<signed char>(x) < -0x40 *)
-Definition schar (x : Z) : Z := if x <? 128 then x else x - 256.
-Definition is_trail (x : Z) : bool := schar x <? fu8_trail_bound.
-
-Definition is_valid_cp (c : Z) : bool :=
-  (c <? fu8_valid_lt) || ((fu8_valid_ge <=? c) && (c <=? fu8_valid_le)).
-
-Definition byte_at (bs : list Z) (i : nat) : Z := nth i bs 0.
-
-(* begin = bs (non-empty), end - begin = length bs.  None = NotUTF8Exception *)
-Definition decode_utf8 (bs : list Z) : option (Z * Z) :=
-  match bs with
-  | [] => None
-  | b0 :: _ =>
-    let len := Z.of_nat (length bs) in
-    if b0 <? fu8_b1_lt then Some (b0, fu8_b1_len)
-    else if (fu8_b2_len <=? len) && (Z.land b0 fu8_b2_leadmask =? fu8_b2_leadval) then
-      let cp := Z.lor (Z.shiftl (Z.land b0 fu8_b2_m0) fu8_b2_s0) (Z.land (byte_at bs 1) fu8_b2_m1) in
-      if is_trail (byte_at bs 1) && (fu8_b2_min <=? cp) && is_valid_cp cp
-      then Some (cp, fu8_b2_mblen) else None
-    else if (fu8_b3_len <=? len) && (Z.land b0 fu8_b3_leadmask =? fu8_b3_leadval) then
-      let cp := Z.lor (Z.lor (Z.shiftl (Z.land b0 fu8_b3_m0) fu8_b3_s0)
-                             (Z.shiftl (Z.land (byte_at bs 1) fu8_b3_m1) fu8_b3_s1))
-                      (Z.land (byte_at bs 2) fu8_b3_m2) in
-      if is_trail (byte_at bs 1) && is_trail (byte_at bs 2) && (fu8_b3_min <=? cp) && is_valid_cp cp
-      then Some (cp, fu8_b3_mblen) else None
-    else if (fu8_b4_len <=? len) && (Z.land b0 fu8_b4_leadmask =? fu8_b4_leadval) then
-      let cp := Z.lor (Z.lor (Z.lor (Z.shiftl (Z.land b0 fu8_b4_m0) fu8_b4_s0)
-                                    (Z.shiftl (Z.land (byte_at bs 1) fu8_b4_m1) fu8_b4_s1))
-                             (Z.shiftl (Z.land (byte_at bs 2) fu8_b4_m2) fu8_b4_s2))
-                      (Z.land (byte_at bs 3) fu8_b4_m3) in
-      if is_trail (byte_at bs 1) && is_trail (byte_at bs 2) && is_trail (byte_at bs 3)
-         && (fu8_b4_min <=? cp) && is_valid_cp cp
-      then Some (cp, fu8_b4_mblen) else None
-    else None
-  end.
 
 (* DecodeUTF8(line.data() + p, line.end(), &char_len) *)
 Definition dec_at (line : list Z) (p : Z) : option (Z * Z) :=
@@ -263,34 +224,103 @@ Fixpoint tool_lines (o : wopts) (g : list Z -> list Z) (cr_out : bool) (ls : lis
 Definition foldfilter (o : wopts) (g : list Z -> list Z) (cr_in cr_out : bool) (input : list Z) : tres :=
   tool_lines o g cr_out (records 10 cr_in input).
 
+(* ---------- the data flow as it is: ONE stream to the child, ONE stream back ----------
+   The feeder wraps every line, enqueues its withheld runs and writes its pieces, one per line,
+   to the child; the collector takes, for each queue entry in order, as many answer lines from
+   the child's output stream as the entry has runs.  The child is any function from the bytes
+   it reads to the bytes it writes.  (Surplus child output after the last line is not noticed
+   by foldfilter; too little is TChildShort.) *)
+Inductive wares := WAOk (pieces : list (list Z)) (dels : list (list (list Z))) | WABad | WAFuel.
+
+Fixpoint wrap_all (o : wopts) (ls : list (list Z)) : wares :=
+  match ls with
+  | [] => WAOk [] []
+  | l :: r =>
+    match wrap_lines l o with
+    | WBadUtf8 => WABad
+    | WFuel => WAFuel
+    | WOk ps ds =>
+      match wrap_all o r with
+      | WAOk ps' dss => WAOk (ps ++ ps') (ds :: dss)
+      | e => e
+      end
+    end
+  end.
+
+Fixpoint collect_lines (dss : list (list (list Z))) (answers : list (list Z)) : option (list (list Z)) :=
+  match dss with
+  | [] => Some []
+  | ds :: r =>
+    match join answers ds with
+    | None => None
+    | Some (s, rest) =>
+      match collect_lines r rest with
+      | Some out => Some (s :: out)
+      | None => None
+      end
+    end
+  end.
+
+Definition foldfilter_stream (o : wopts) (child : list Z -> list Z) (cr_in cr_out : bool) (input : list Z) : tres :=
+  match wrap_all o (records 10 cr_in input) with
+  | WABad => TBadUtf8
+  | WAFuel => TFuel
+  | WAOk pieces dss =>
+    match collect_lines dss (records 10 cr_out (child (unrecords 10 pieces))) with
+    | None => TChildShort
+    | Some out => TOk (unrecords 10 out)
+    end
+  end.
+
+(* a child that answers every line l it reads with g l *)
+Definition line_child (g : list Z -> list Z) (child_in : list Z) : list Z :=
+  unrecords 10 (map g (records 10 false child_in)).
+
+(* -w <num>: a non-empty string of decimal digits below 2^64 (what a size_t holds);
+   anything else is a usage error.  None = usage error (exit status 1). *)
+Fixpoint digits_value (acc : Z) (s : list Z) : option Z :=
+  match s with
+  | [] => Some acc
+  | c :: r => if (48 <=? c) && (c <=? 57) then digits_value (acc * 10 + (c - 48)) r else None
+  end.
+
+Definition parse_width (s : list Z) : option Z :=
+  match s with
+  | [] => None
+  | _ => match digits_value 0 s with
+         | Some v => if v <? 18446744073709551616 then Some v else None
+         | None => None
+         end
+  end.
+
+Inductive cres := CUsage | CRun (r : tres).
+
+(* foldfilter -w <wstr> [-s] -d <delims> child, as far as the width option goes *)
+Definition foldfilter_cli (wstr : list Z) (keep : bool) (delims : list Z) (g : list Z -> list Z) (input : list Z) : cres :=
+  match parse_width wstr with
+  | None => CUsage
+  | Some w => CRun (foldfilter {| w_width := w; w_keep := keep; w_delims := delims |} g
+                               fold_feeder_strip_cr fold_collector_strip_cr input)
+  end.
+
+(* -d <str>: the code points of the argument in order (parse_delimiters: DecodeUTF8Range);
+   None = the argument is not valid UTF-8 *)
+Definition parse_delims (s : list Z) : option (list Z) := cps_of_utf8 s.
+
+(* foldfilter -w <wstr> [-s] -d <dstr> child *)
+Definition foldfilter_cli2 (wstr : list Z) (keep : bool) (dstr : list Z) (g : list Z -> list Z) (input : list Z) : cres :=
+  match parse_width wstr, parse_delims dstr with
+  | Some w, Some ds => CRun (foldfilter {| w_width := w; w_keep := keep; w_delims := ds |} g
+                                        fold_feeder_strip_cr fold_collector_strip_cr input)
+  | _, _ => CUsage
+  end.
+
 (* the tool as built: the two strip_cr settings are read from the source *)
 Definition foldfilter_tool (o : wopts) (g : list Z -> list Z) (input : list Z) : tres :=
   foldfilter o g fold_feeder_strip_cr fold_collector_strip_cr input.
 
 (* ---------- boolean checkers of the property (used as oracles on the
    implementation's output and in the theorems) ---------- *)
-
-(* number of code points if bs is accepted by the scanner, None otherwise *)
-Fixpoint count_cps (fuel : nat) (bs : list Z) : option nat :=
-  match bs with
-  | [] => Some O
-  | _ =>
-    match fuel with
-    | O => None
-    | S f =>
-      match decode_utf8 bs with
-      | None => None
-      | Some (_, n) =>
-        match count_cps f (skipn (Z.to_nat n) bs) with
-        | Some k => Some (S k)
-        | None => None
-        end
-      end
-    end
-  end.
-
-Definition utf8_valid (bs : list Z) : bool :=
-  match count_cps (length bs) bs with Some _ => true | None => false end.
 
 Fixpoint all_delims (fuel : nat) (ds : list Z) (bs : list Z) : bool :=
   match bs with
